@@ -145,4 +145,9 @@ mod tests {
 
         assert_eq!(hash, *cid.hash());
     }
+
+    #[cfg(lumina_verif)]
+    mod verif_native {
+        include!(concat!(env!("LUMINA_VERIF_DIR"), "/native/node/mh.rs"));
+    }
 }
